@@ -315,7 +315,7 @@ def parse_label(label, **params):
     are returned with default values from tree.py (or empty).
     """
     gf_separator = DEFAULT_GF_SEPARATOR
-    if gf_separator in params:
+    if 'gf_separator' in params:
         gf_separator = params['gf_separator']
     # start from the back
     # head marker
